@@ -97,6 +97,15 @@ pub fn write_rtobject(o: Rc<dyn RTObject>) -> Result<serde_json::Value, StoryErr
     }
 
     if let Some(v) = Value::get_value::<f32>(o.as_ref()) {
+        // JSON has no infinity or NaN (`json!` would write `null`, which cannot be read back).
+        // An infinity is written as a number beyond the f32 range, which reads back as the
+        // same infinity; NaN is written as 0.0, as the reference runtime does.
+        if v.is_nan() {
+            return Ok(json!(0.0));
+        }
+        if v.is_infinite() {
+            return Ok(json!(if v > 0.0 { 1e39_f64 } else { -1e39_f64 }));
+        }
         return Ok(json!(v));
     }
 
